@@ -326,7 +326,38 @@ func runCRDTSection(c *core.Ctx) {
 		})
 		inLoop := false
 		for _, cl := range calls {
-			if rg.Enclosing(cl, func(n ast.Node) bool { _, ok := n.(*ast.RangeStmt); return ok }) != nil {
+			// a loop that runs once per tick: it ranges over, or receives from, the channel of a time.Ticker
+			isTick := func(x ast.Expr) bool {
+				sel, ok := an.Unparen(x).(*ast.SelectorExpr)
+				if !ok || sel.Sel.Name != "C" {
+					return false
+				}
+				t := ri.TypeOf(sel.X)
+				if p, isPtr := t.(*types.Pointer); isPtr {
+					t = p.Elem()
+				}
+				n, isNamed := t.(*types.Named)
+				return isNamed && n.Obj().Pkg() != nil && n.Obj().Pkg().Path() == "time" && n.Obj().Name() == "Ticker"
+			}
+			if rg.Enclosing(cl, func(n ast.Node) bool {
+				switch l := n.(type) {
+				case *ast.RangeStmt:
+					return isTick(l.X)
+				case *ast.ForStmt:
+					ticks := false
+					ast.Inspect(l.Body, func(m ast.Node) bool {
+						if _, isLit := m.(*ast.FuncLit); isLit {
+							return false
+						}
+						if u, isU := m.(*ast.UnaryExpr); isU && u.Op == token.ARROW && isTick(u.X) {
+							ticks = true
+						}
+						return true
+					})
+					return ticks
+				}
+				return false
+			}) != nil {
 				inLoop = true
 			}
 		}
